@@ -146,15 +146,15 @@ def run(ctx):
     trs.append({"tid": len(trs) + 1, "seq": list(s), "after": [{"made": "the 0.1 grid read twice"}],
                 "ev": ph_events(ctx, o, s, fine, need) + ph_events(ctx, o, s, fine, need)})
     # long chains of nearly the same titratable composition in one process (a wild type and point variants)
-    for rep in range(ctx.pick(4, 10)):
+    for rep in range(ctx.pick(24, 60)):
         wt_ = list(common.random_sequences(ctx.rng, 1, 260, 140)[0])
-        if rep % 2:
+        if rep % 4:
             # mostly titratable residues (a few hundred of them): a point substitution moves every fraction by less than a percent
             wts = [ctx.rng.uniform(0.2, 3) for _ in "KRHDECY"]
             wt_ = ctx.rng.choices("KRHDECY", weights=wts, k=ctx.rng.randint(250, 600)) + list("GSPQ" * ctx.rng.randint(0, 10))
             ctx.rng.shuffle(wt_)
         tit = [i for i, c in enumerate(wt_) if c in PKA10]
-        for var in range(ctx.pick(14, 30)):
+        for var in range(ctx.pick(20, 30)):
             v = list(wt_)
             for i in ctx.rng.sample(tit, min(len(tit), ctx.rng.randint(1, 3))) if var else []:
                 v[i] = ctx.rng.choice([c for c in "KRHDECYGS" if c != v[i]])
